@@ -22,39 +22,35 @@ Record sparam := mkSParam { s_name : N; s_kind : pkind; s_default : bool; s_type
 (* translate_vararg_type: generated *)
 Definition wrap := gen_wrap.
 
-(* compute_parameters: kind from the syntax; an unannotated parameter is
-   Any (united with its default, which is Any again up to representation),
-   and *args / **kwargs are always wrapped *)
-Definition def_param (p : param) : sparam :=
-  mkSParam (p_name p) (p_kind p) (p_default p)
-    (wrap (p_kind p) (match p_annot p with Some e => route_visitor e | None => TAny end)).
-
-Definition sig_from_def (ps : list param) : list sparam := map def_param ps.
-
-(* _make_sig_parameter: a positional-or-keyword parameter whose name is
-   "private" becomes positional-only and makes every earlier parameter
-   positional-only; only annotated *args / **kwargs are wrapped *)
+(* the declared type of one parameter on each route *)
+(* compute_parameters: an unannotated parameter is Any (united with its default, which is Any
+   again up to representation); *args / **kwargs are always wrapped *)
+Definition def_type (p : param) : tval :=
+  wrap (p_kind p) (match p_annot p with Some e => route_visitor e | None => TAny end).
+(* _get_type_for_parameter: only annotated *args / **kwargs are wrapped *)
 Definition rt_type (p : param) : tval :=
   match p_annot p with Some e => wrap (p_kind p) (route_runtime e) | None => TAny end.
 
-Definition is_posorkw (k : pkind) : bool := match k with PosOrKw => true | _ => false end.
-
 Definition make_posonly (s : sparam) : sparam := mkSParam (s_name s) PosOnly (s_default s) (s_type s).
 
-Definition rt_step (acc : list sparam) (p : param) : list sparam :=
-  let (k, everything_posonly) := rt_kind (p_kind p) (p_private p) in
-  (if everything_posonly then map make_posonly acc else acc) ++ [mkSParam (p_name p) k (p_default p) (rt_type p)].
+(* one parameter is appended; when the PEP 484 rule applies (`use_rule`) a positional-or-keyword
+   parameter with a private name becomes positional-only and so does everything before it *)
+Definition gstep (ty : param -> tval) (use_rule : bool) (acc : list sparam) (p : param) : list sparam :=
+  let (k, everything_posonly) := if use_rule then rt_kind (p_kind p) (p_private p) else (p_kind p, false) in
+  (if everything_posonly then map make_posonly acc else acc) ++ [mkSParam (p_name p) k (p_default p) (ty p)].
 
-Definition sig_from_runtime (ps : list param) : list sparam := fold_left rt_step ps [].
+(* functions.compute_parameters (def_private_rule: generated -- is the rule applied there?) *)
+Definition sig_from_def (ps : list param) : list sparam := fold_left (gstep def_type def_private_rule) ps [].
+(* the code before repo_fixes/C13-private-name-def-route *)
+Definition sig_from_def_legacy (ps : list param) : list sparam := fold_left (gstep def_type false) ps [].
+(* arg_spec.from_signature / _make_sig_parameter *)
+Definition sig_from_runtime (ps : list param) : list sparam := fold_left (gstep rt_type true) ps [].
 
 (* representation: an unannotated *args is Any on one side and tuple[Any, ...] on the other *)
-Definition norm_sparam (s : sparam) : sparam :=
-  match s_type s with
-  | TAny => mkSParam (s_name s) (s_kind s) (s_default s) (wrap (s_kind s) TAny)
-  | _ => s
-  end.
+Definition norm_type (k : pkind) (t : tval) : tval := match t with TAny => wrap k TAny | _ => t end.
+
+(* what the binder sees of a parameter *)
+Definition erase (s : sparam) : N * pkind * bool := (s_name s, s_kind s, s_default s).
 
 Definition ret_from_def (r : option aexpr) : tval := match r with Some e => route_visitor e | None => TAny end.
 Definition ret_from_runtime (r : option aexpr) : tval := match r with Some e => route_runtime e | None => TAny end.
-
-Definition param_ok (p : param) : bool := negb (p_private p).
